@@ -27,6 +27,7 @@ def proj(o):
             "child": {"value": o.child.value, "items": list(o.child.items),
                       "grid": [list(g) if type(g) is list else [777] for g in o.child.grid]}, "tmp": o.tmp,
             "ro": 0 if ro is Undefined or ro == 0 else ro, "kids": kids_pattern(o),
+            "pvset": 1 if "pv" in d else 0, "pvval": (lambda x: x if type(x) is int else BAD)(d.get("pv", 0)),
             "hasx": 1 if "extra" in o._instance_traits() else 0,
             "xval": (lambda x: x if type(x) is int else BAD)(d.get("extra", 0))}
 
@@ -108,6 +109,10 @@ def step(o, dyn, op, v):
             o.cgrid.append([v])
         elif op == "grid_inner":
             o.child.grid[0].append(v)
+        elif op == "pv_assign":
+            o.pv = cv
+        elif op == "pv_del":
+            del o.pv
         elif op == "kids_child":
             o.kids.append(o.child)
         elif op == "kids_new":
@@ -122,11 +127,11 @@ def step(o, dyn, op, v):
     except Exception as e:
         exc = type(e).__name__
     return {"op": op, "v": v, "pre": pre, "post": proj(o), "exc": exc, "obs": o.obs_count - obs0, "dyn": len(dyn) - dyn0,
-            "pobs": o.post_count - pobs0, "total": o.total, "total2": o.total2}
+            "pobs": o.post_count - pobs0, "total": o.total, "total2": o.total2, "pvread": o.pv}
 
 
 OPS = ["kids_child", "kids_new", "kids_dup", "n_assign", "n_assign", "tmp_assign", "ro_assign", "xs_append", "xs_append", "xs_assign", "nested_append", "nested_inner", "dl_set",
-       "dl_inner", "s_add", "child_value", "child_items", "grid_append", "grid_inner", "addx", "extra_assign"]
+       "dl_inner", "s_add", "child_value", "child_items", "grid_append", "grid_inner", "addx", "extra_assign", "pv_assign", "pv_assign", "pv_del"]
 
 
 def run_history(rnd, steps, t):
@@ -154,17 +159,17 @@ def run_history(rnd, steps, t):
                 ids = set(id(x) for x in containers(o, deep))
                 shared = sum(1 for x in containers(c, deep) if id(x) in ids)
                 rec.update(post=proj(c), sameclass=1 if type(c) is type(o) else 0, shared=shared, total=c.total,
-                           total2=c.total2, orig_after=proj(o))
+                           total2=c.total2, orig_after=proj(o), pvread=c.pv)
                 o = c
                 dyn = []
                 handler = (lambda d: (lambda: d.append(1)))(dyn)
                 o.on_trait_change(handler, "xs_items")
             else:
-                rec.update(post=pre, sameclass=1, shared=0, total=0, total2=0, orig_after=pre)
+                rec.update(post=pre, sameclass=1, shared=0, total=0, total2=0, orig_after=pre, pvread=0)
             out.append(rec)
             continue
         op = rnd.choice(OPS)
-        v = rnd.choice([1, 2, 3, BAD]) if op not in ("tmp_assign", "nested_append", "dl_set", "xs_assign", "grid_append", "grid_inner") else rnd.choice([1, 2, 3])
+        v = rnd.choice([0, 0, 1, 2, BAD]) if op == "pv_assign" else rnd.choice([1, 2, 3, BAD]) if op not in ("tmp_assign", "nested_append", "dl_set", "xs_assign", "grid_append", "grid_inner") else rnd.choice([1, 2, 3])
         r = step(o, dyn, op, v)
         r.update(tid=t, step=s, kind="")
         out.append(r)
@@ -196,7 +201,8 @@ def run(rep, tier, seed):
         with open(trace, "w") as f:
             for t in range(ntr):
                 for r in run_history(rnd, steps, t):
-                    f.write(json.dumps(r, separators=(",", ":")) + "\n")
+                    # (total projection: a value outside the abstract domain becomes a token no specification value equals)
+                    f.write(json.dumps(r, separators=(",", ":"), default=lambda o: 770000 + (hash(type(o).__name__) % 1000)) + "\n")
                     n += 1
                     if r["op"] == "copy" and len(rep.samples) < 1:
                         rep.sample(r)
